@@ -1094,11 +1094,29 @@ static void gen_expr(Node *node) {
     verif_stmt_expr_depth--;
 #endif
     return;
-  case ND_COMMA:
-    gen_expr(node->lhs);
-    discard(node->lhs->ty);
-    gen_expr(node->rhs);
+  case ND_COMMA: {
+    // The initializer of a large automatic array is one comma chain
+    // `(((e0, e1), e2), ...)` as deep as the array is long: walk down
+    // to e0 in a loop instead of recursing once per element.
+    int n = 0;
+    for (Node *c = node; c->kind == ND_COMMA; c = c->lhs)
+      n++;
+
+    Node **chain = calloc(n, sizeof(Node *));
+    Node *c = node;
+    for (int i = n - 1; i >= 0; i--, c = c->lhs)
+      chain[i] = c;
+
+    gen_expr(chain[0]->lhs);
+    for (int i = 0; i < n; i++) {
+      discard(chain[i]->lhs->ty);
+      if (i > 0)
+        emit_loc(chain[i]->tok);
+      gen_expr(chain[i]->rhs);
+    }
+    free(chain);
     return;
+  }
   case ND_CAST:
     gen_expr(node->lhs);
     cast(node->lhs->ty, node->ty);
